@@ -4,7 +4,7 @@ import ast
 from ..core.model import AnchorError, FuncInfo
 from ..core.cfg import walk_shallow, cfg_of
 from ..core.facts import U, atoms_of
-from ..engine import argn, fn_name, kwarg, local_defs, returns_of, stmts_in, deref
+from ..engine import argn, fn_name, kwarg, local_defs, returns_of, stmts_in, deref, vars_assigned_from
 
 EXPLANATION = (
     "Decides structural clauses of C19: S1 the Pareto filter's dominance test is 'weakly better in all objectives and strictly "
@@ -436,8 +436,64 @@ def s4(ctx, rep):
     rep.info("S4", "agreement", "_Bracket.on_result reads recorded dicts positionally (list(x.values()))", b, None, str(ok))
 
 
+def s2b(ctx, rep):
+    """the order inside a Pareto layer is a permutation of the layer: the work set starts as all positions, every position taken
+    out of it is put on the order list (the seed included) on the same paths, and the loop runs until the work set is empty"""
+    P = ctx.P
+    f = P.func("syne_tune.optimizer.schedulers.multiobjective.non_dominated_priority.compute_epsilon_net")
+    cfg = cfg_of(f)
+    def is_all_positions(e):
+        if not (isinstance(e, ast.Call) and fn_name(e) == "set" and argn(e, 0) is not None):
+            return False
+        a0 = deref(f, argn(e, 0))
+        return isinstance(a0, ast.Call) and fn_name(a0) == "range"
+    work = vars_assigned_from(f, is_all_positions)
+    if len(work) != 1:
+        raise AnchorError("compute_epsilon_net: work set `set(range(n))` not found")
+    w = work[0]
+    rem = [(n.id, x) for n in cfg.nodes for x in cfg.node_walk(n.id) if isinstance(x, ast.Call) and fn_name(x) in ("remove", "discard", "pop")
+           and U(x.func.value) == w]
+    if len(rem) < 1:
+        raise AnchorError("compute_epsilon_net: removals from the work set not found")
+    whiles = [x for x in walk_shallow(f.node) if isinstance(x, ast.While)]
+    heads = {n.id for n in cfg.nodes if n.kind in ("test", "for") and any(n.ast is x.test for x in whiles)} | {n.id for n in cfg.nodes if n.kind == "for"}
+    # the order list: appended to / initialised with the removed values
+    ok = True
+    why = ""
+    for nid, x in rem:
+        v = U(argn(x, 0)) if argn(x, 0) is not None else None
+        puts = {n.id for n in cfg.nodes if n.kind == "stmt" and (
+            any(isinstance(y, ast.Call) and fn_name(y) == "append" and argn(y, 0) is not None and U(argn(y, 0)) == v for y in cfg.node_walk(n.id)) or
+            (isinstance(n.ast, ast.Assign) and isinstance(n.ast.value, ast.List) and len(n.ast.value.elts) == 1 and U(n.ast.value.elts[0]) == v))}
+        if v is None or not puts or not (cfg.path([cfg.entry], nid, deleted=puts, skip_labels=("exc",)) is None or
+                                         cfg.path([nid], cfg.exit, deleted=puts | heads, skip_labels=("exc",)) is None):
+            ok = False
+            why = f"`{U(x)}` takes a position out of the work set that is not put on the order list on the same path"
+    # ... and conversely: whatever is put on the order list (the seed it is initialised with, every later choice) leaves the work set
+    ordv = {U(n.ast.targets[0]) for n in cfg.nodes if n.kind == "stmt" and isinstance(n.ast, ast.Assign) and isinstance(n.ast.value, ast.List)
+            and len(n.ast.value.elts) == 1 and isinstance(n.ast.targets[0], ast.Name)}
+    for n in cfg.nodes:
+        vs = []
+        if n.kind == "stmt" and isinstance(n.ast, ast.Assign) and isinstance(n.ast.value, ast.List) and len(n.ast.value.elts) == 1 and U(n.ast.targets[0]) in ordv:
+            vs.append(U(n.ast.value.elts[0]))
+        vs += [U(argn(y, 0)) for y in cfg.node_walk(n.id) if isinstance(y, ast.Call) and fn_name(y) == "append" and U(y.func.value) in ordv and argn(y, 0) is not None]
+        for v in vs:
+            outs = {nid for nid, x in rem if argn(x, 0) is not None and U(argn(x, 0)) == v}
+            if not outs or not (cfg.path([cfg.entry], n.id, deleted=outs, skip_labels=("exc",)) is None or
+                                cfg.path([n.id], cfg.exit, deleted=outs | heads, skip_labels=("exc",)) is None):
+                ok = False
+                why = f"`{v}` is put on the order list but stays in the work set: it is chosen again, the order holds it twice"
+    loops = [x for x in whiles if any(a[0] == "truth" and a[1] == w and a[2] is True for a in atoms_of(x.test, True))
+             or any(a[0] in ("lt", "le") and f"len({w})" in a[1:3] for a in atoms_of(x.test, True))]
+    ok = ok and len(loops) == 1
+    rep.put(ok, "S2", "paired", "compute_epsilon_net: every position leaves the work set onto the order list, until the work set is empty", f,
+            None, f"{len(rem)} removal(s)", why or "the loop does not run until the work set is empty: positions are missing from the order "
+            "(their ranks are uninitialised memory: indices repeat or fall outside the layer)")
+
+
 def run(ctx, rep, tier="quick"):
     s1(ctx, rep)
     s2(ctx, rep)
+    s2b(ctx, rep)
     s3(ctx, rep)
     s4(ctx, rep)
